@@ -170,6 +170,16 @@ class Lifter:
             era, loc = v[1], v[2]
             if era != 0:
                 return Ent('STALE', None, era, sid)
+            if r.kind == 'slotvec' and self.order is not None and loc[0] == 'deref' and isinstance(loc[1], tuple):
+                # *std::prev(l.end()) is l.back(), *l.begin() is l.front()
+                it = loc[1]
+                if it[0] == 'adv' and it[1] == -1 and isinstance(it[2], tuple) and it[2][0] == 'q' and it[2][1] in ('end', 'cend') and it[2][2] == self.order:
+                    loc = ('q', 'back', self.order, (), it[3])
+                elif it[0] == 'q' and it[1] in ('begin', 'cbegin') and it[2] == self.order:
+                    loc = ('q', 'front', self.order, (), it[4])
+            if loc[0] == 'fld' and loc[2] == 'second' and loc[1][0] == 'elem' and loc[1][1] in self.aux:
+                # a node met while iterating over an auxiliary structure: RI, it files a bound slot
+                return Ent('AUXNODE', self.aux[loc[1][1]][0], 0, sid)
             if loc[0] == 'fld' and loc[2] == 'second' and loc[1][0] == 'deref':
                 it = loc[1][1]
                 if self.is_find(it):
@@ -214,7 +224,7 @@ class Lifter:
                 return Ent('ATPART', p[0], p[1], sid)
             if v[0] == 'q' and v[1] in ('begin', 'cbegin') and v[2] == self.order:
                 return Ent('FRONT', None, v[4] or 0, sid)
-            if v[0] == 'adv' and v[2][0] == 'q' and v[2][1] == 'end' and v[2][2] == self.order:
+            if v[0] == 'adv' and v[2][0] == 'q' and v[2][1] in ('end', 'cend') and v[2][2] == self.order:
                 return Ent('FROMEND', v[1], v[3], sid)
         if v[0] == 'lv':
             return Ent('LV', v[1], 0, sid)
@@ -262,7 +272,7 @@ class Lifter:
             if it[0] == 'ld' and it[2][0] == 'fld' and it[2][2] == 'm_ttl_position':
                 e = self.elem_entity(it[2][1])
                 return Ent('TTLOF', e.key(), 0, it)
-            if it[0] == 'adv' and it[2][0] == 'q' and it[2][1] == 'end':
+            if it[0] == 'adv' and it[2][0] == 'q' and it[2][1] in ('end', 'cend'):
                 return Ent('FROMEND', it[1], it[3], it)
             if it[0] == 'q' and it[1] in ('begin', 'cbegin', 'front'):
                 return Ent('FRONT', None, it[4] or 0, it)
@@ -313,6 +323,16 @@ class Lifter:
                 if self.is_find(x) and isinstance(y, tuple) and y[0] == 'q' and y[1] in ('end', 'cend') and y[2] == self.index:
                     if op in ('!=', '=='):
                         return ('PRESENT', (x[3][0], x[4] or 0), op == '!=')
+            # PRESENT spelled with count(): count(k) != 0, count(k) > 0, count(k) == 1, 0 < count(k) ...
+            for x, y, flip in ((a, b, False), (b, a, True)):
+                if isinstance(x, tuple) and x and x[0] == 'q' and x[1] in ('count',) and x[2] == self.index and len(x[3]) == 1 \
+                        and isinstance(y, tuple) and y[0] == 'int':
+                    o = {'<': '>', '>': '<', '<=': '>=', '>=': '<='}.get(op, op) if flip else op
+                    c0 = y[1]
+                    table = {('!=', 0): True, ('>', 0): True, ('>=', 1): True, ('==', 1): True,
+                             ('==', 0): False, ('<', 1): False, ('<=', 0): False, ('!=', 1): False}
+                    if (o, c0) in table:
+                        return ('PRESENT', (x[3][0], x[4] or 0), table[(o, c0)])
             # PEEK enum
             for x, y in ((a, b), (b, a)):
                 if isinstance(x, tuple) and x[0] == 'p' and isinstance(y, tuple) and y[0] == 'enum' and (y[1] or '').endswith('peek'):
@@ -320,6 +340,14 @@ class Lifter:
                         # peek == peek::no  <=> not PEEK
                         is_no = y[2] == 'no'
                         return ('PEEK', (), (op == '==') != is_no)
+            # bool parameter compared with a literal: peek == false, true != peek ...
+            for x, y in ((a, b), (b, a)):
+                if isinstance(x, tuple) and x[0] == 'p' and isinstance(y, tuple) and y[0] in ('bool', 'int') and y[1] in (True, False, 0, 1) \
+                        and op in ('==', '!='):
+                    truth_when = bool(y[1]) if op == '==' else not bool(y[1])     # cmp true  <=>  x == truth_when
+                    if x[1] == 'peek':
+                        return ('PEEK', (), truth_when)
+                    return ('PARAM', (x[1],), truth_when)
             nc = norm_cmp(t)
             atoms, c, nop = nc
             # counter vs capacity / zero
@@ -410,6 +438,10 @@ class Lifter:
             if op in ('!=', '=='):
                 for x, y in ((a, b), (b, a)):
                     py = self.part_value(y)
+                    if py is not None and isinstance(x, tuple) and x and x[0] == 'adv' and self.part_value(x) is None and isinstance(x[1], int):
+                        # std::next(node) == P   <=>   node == std::prev(P)
+                        py = (py[0] - x[1], py[1])
+                        x = x[2]
                     if py is not None and py[0] == -1:
                         # node != prev(P)
                         return ('IS_LAST_USED', (self.iter_entity(x), py[1]), op == '==')
@@ -528,11 +560,20 @@ class Segment:
         self.loops = []       # (Loop, [Segment])
         self.loop_exits = {}  # id(Loop) -> [Segment] condition-false exits
         self.order = []       # interleaved ('cond', i) / ('eff', i) / ('loop', i) for ordering queries
+        self.out_results = set(parent.out_results) if parent is not None else set()
         self._lift()
 
     def _lift(self):
         L = self.L
         r = L.r
+        if self.parent is not None:
+            # decisions about the call's own parameters taken before the loop (const bool touch = peek == peek::no; ...) hold in every
+            # iteration: they belong to the iteration's valuation as they would had the test been written inside the loop
+            own = set()
+            for c in self.parent.conds:
+                if c[0] in ('PEEK', 'UPD_OK', 'INS_OK') and c[0] not in own:
+                    own.add(c[0])
+                    self.conds.append(c)
         for e in self.events:
             k = e[0]
             if k == 'cond':
@@ -642,10 +683,20 @@ class Segment:
                 return Effect('STORAGE_OP', site, recv=recv, name=name, args=args)
             from symex import root_of
             rt = root_of(recv)
-            if rt[0] in ('local',):
-                return Effect('OUT_CALL', site, recv=recv, name=name, args=args)
-            if rt[0] == 'param':
-                return Effect('OUT_CALL', site, recv=recv, name=name, args=args)
+            if rt[0] in ('local', 'param'):
+                if name in ('emplace_back', 'push_back') and len(args) == 1 and isinstance(args[0], tuple) and args[0]:
+                    # push_back(std::make_pair(k, r)) / push_back(pair{k, r}) == emplace_back(k, r)
+                    a = args[0]
+                    if a[0] == 'pair' and len(a) == 3:
+                        args = (a[1], a[2])
+                    elif a[0] == 'ctor' and len(a) > 2 and len(a[2]) == 2 and 'pair' in str(a[1]):
+                        args = tuple(a[2])
+                if name in ('emplace_back', 'emplace') and len(args) == 3 and args[0] == ('global', 'piecewise_construct') and \
+                        all(isinstance(x, tuple) and x and x[0] == 'fncall' and x[1] == 'forward_as_tuple' and len(x[2]) == 1 for x in args[1:]):
+                    args = (args[1][2][0], args[2][2][0])     # piecewise construction of a pair from one argument each
+                if isinstance(res, tuple) and res and res[0] == 'res':
+                    self.out_results.add(res[1])
+                return Effect('OUT_CALL', site, recv=recv, name=name, args=args, res=res)
             if rt[0] == 'field' and rt[1] in getattr(r, 'inert', ()):
                 return Effect('INERT_CALL', site, recv=recv, name=name, args=args)
             return Effect('OTHER_CALL', site, recv=recv, name=name, args=args)
@@ -702,6 +753,8 @@ class Segment:
                 return Effect('OTHER_WR', site, loc=loc, val=val, field=rt[1])
             if rt[0] == 'param':
                 return Effect('OUT_WR', site, loc=loc, val=val)
+            if rt[0] == 'res' and rt[1] in self.out_results:
+                return Effect('OUT_WR', site, loc=loc, val=val)      # through the reference output.emplace_back(...) returned
             if isinstance(loc, tuple) and loc[0] == 'range':
                 return Effect('RANGE_WR', site, first=loc[1], last=loc[2], val=val)
             return Effect('OTHER_WR', site, loc=loc, val=val, field=None)
